@@ -1101,6 +1101,20 @@ def _as_load(node: ast.AST) -> ast.AST:
 
 
 # --------------------------------------------------------------------------- queries on events
+def try_inside_loops(ev: Event) -> bool:
+    """the innermost try statement around the event lies inside the innermost loop around it (per-iteration handling: a failing
+    iteration does not end the loop). False when the try encloses the loop."""
+    if not ev.tries or not ev.loops:
+        return False
+    t = ev.tries[-1].node
+    best = None
+    for n in ast.walk(ev.tries[-1].fi.node):
+        if isinstance(n, (ast.For, ast.While)) and n.lineno <= ev.line <= (n.end_lineno or n.lineno):
+            if best is None or n.lineno >= best.lineno:
+                best = n
+    return best is not None and best.lineno < t.lineno and (t.end_lineno or t.lineno) <= (best.end_lineno or best.lineno)
+
+
 def after_completion(ev: Event, ret: Event) -> bool:
     """`ret` is only reached when the call `ev` inside a try body completed normally: later in the same try body under the same
     conditions, or in the else-block of that try statement."""
